@@ -46,7 +46,7 @@ Definition payload_type (ctx : schemas) (t : ty) : payload :=
 
 Definition decode_scalar (t : ty) (k : skind) (j : json) : dres :=
   match k with
-  | KAny => DSet (GAny j)
+  | KAny => DSet (GAny (canon j))   (* map[string]any / []any / float64: key order and duplicates are gone *)
   | KBool => match j with JBool b => DSet (GBool b) | _ => DErr end
   | KString =>
       match j with
